@@ -5,7 +5,7 @@ from props import PROPS
 from manifest_text import CHECK_TEXT, NOT_APPLICABLE
 
 checks = []
-for pid in sorted(PROPS):
+for pid in sorted(CHECK_TEXT):
     t = CHECK_TEXT[pid]
     checks.append({
         "property_id": pid,
@@ -30,9 +30,9 @@ manifest = {
         "add_only": True,
     },
     "engines": [
-        {"name": "lean-proofs", "path": "lean/FeatherModel/Thm", "serves_properties": sorted(PROPS), "kind_free_text": "Lean 4 theorems over executable models (lean/FeatherModel/Model), axiom audit, leanchecker"},
-        {"name": "lean-driver", "path": "lean/FeatherModel/Driver", "serves_properties": sorted(PROPS), "kind_free_text": "compiled lean_exe answering the line protocol with the model's executable definitions"},
-        {"name": "rust-harness", "path": "harness", "serves_properties": sorted(PROPS), "kind_free_text": "generators + executors linking the /repo crates by path (rebuilt from the working tree on every run)"},
+        {"name": "lean-proofs", "path": "lean/FeatherModel/Thm", "serves_properties": sorted(CHECK_TEXT), "kind_free_text": "Lean 4 theorems over executable models (lean/FeatherModel/Model), axiom audit, leanchecker"},
+        {"name": "lean-driver", "path": "lean/FeatherModel/Driver", "serves_properties": sorted(CHECK_TEXT), "kind_free_text": "compiled lean_exe answering the line protocol with the model's executable definitions"},
+        {"name": "rust-harness", "path": "harness", "serves_properties": sorted(CHECK_TEXT), "kind_free_text": "generators + executors linking the /repo crates by path (rebuilt from the working tree on every run)"},
     ],
     "checks": checks,
     "not_applicable": NOT_APPLICABLE,
